@@ -82,7 +82,7 @@ P["C06"] = dict(
 P["C11"] = dict(
     claimed=True,
     technique="static analysis: exact checks of the unit and adaptor tables from HIR constants",
-    decides=["R-DEDUP-SORTED: no vector is de-duplicated (Vec::dedup*) without a dominating sort of the same vector (duplicate-axis detection sees non-adjacent duplicates)",
+    decides=["R-DEDUP-SORTED: adapt / axisswap / unitconvert de-duplicate no vector (Vec::dedup*) without a dominating sort of the same vector (duplicate-axis detection sees non-adjacent duplicates)",
              "T-UNITS: unit names unique over linear++angular (first-hit lookup), multiplier = own factor string = "
              "published factor", "T-ADAPTORS: the 8 documented adaptor macros, registered by both contexts",
              "R-GATHER-SCATTER: adapt and axisswap forward gather out[k]=in[perm[k]]*m[k]; the inverse is the scatter "
@@ -404,8 +404,7 @@ P["C14"] = dict(
 P["C16"] = dict(
     claimed=True,
     technique="static analysis: declaration/use agreement of parameter keys between gamuts, constructors and readers",
-    decides=["R-DEDUP-SORTED: no vector is de-duplicated without a dominating sort of the same vector",
-             "R-KEY-DECLARED: every key read by an operator (flags included) is declared in its gamut, stored by its "
+    decides=["R-KEY-DECLARED: every key read by an operator (flags included) is declared in its gamut, stored by its "
              "constructor, or implicit; so a declared flag is what the operator consults ('flags are true when present')",
              "R-TYPED-EXTRACT: in ParsedParameters::new each OpParameter variant is parsed by the parser of the declared type (usize / i64 / parse_sexagesimal / none) and naturals and integers are stored unconverted",
              "R-SIGN-CARRIER: parse_sexagesimal takes the sign of the angle from the sign bit (signum) of the degrees field whose magnitude it uses, so -0:30 keeps its sign",
